@@ -334,6 +334,15 @@ def run_project(st: Stats, combo, order):
                 st.violation("item-url-has-no-such-anchor", stratum, dict(feats, page_dir=cls[0], id_class=cls[1]), inp,
                              dict(page=page, id=fr, item=f"{type(it).__name__}:{it.name}@{getattr(it.parent, 'name', None)}", page_exists=pg is not None),
                              "the page at the item's URL contains the item's anchor")
+        # 3c. every link between the generated pages reaches an existing file and anchor (the URL FORD prints for an item must be that item's)
+        seen_lp = set()
+        for (page, tag, attr, url, prob) in site.link_problems():
+            cls = (page.split("/")[0], url.split("#")[-1].split("-")[0] if "#" in url else url.split("/")[-2] if "/" in url else url)
+            if cls in seen_lp:
+                continue
+            seen_lp.add(cls)
+            bad += 1
+            st.violation("link-to-missing-page-or-anchor", stratum, dict(feats, page_dir=cls[0], id_class=cls[1]), inp, dict(page=page, url=url, problem=prob), "links resolve")
         # 3b. links baked into the documentation text ("Read more" behind a summary) lead to the page of that very entity
         import posixpath
         import re as _re
